@@ -3,9 +3,19 @@
           tp  <nthreads> <limit> <ovf> <hook> <variant> | ...
    variant: 0 = code as found, 1 = with the shutdown re-check fixes, 3 = 1 + overflow threads registered (tp), 2 = try 3, 1, 0.
    answer: ok variant=v n=.. acc=.. enq=.. done=.. disc=.. repl=.. started=.. pending=.. uaf=b freed=b wdead=b shut=b
-           reject at=<index> ev=<token> variant=v *)
+              [tp: regs=.. busy=.. workers=..]
+           reject at=<index> ev=<token> variant=v ... [tp: regs=<model registry> ...]
+   Tokens of kind 18 / 19 (tp only) are observations of the harness, not events: 18 = tid:18:id0:id1:.. is the content of
+   tp->threads seen by the mutex holder; it must equal the model's registry (Tp.regs) at that point, otherwise the trace
+   is rejected at that token.  19 = tid:19:id (pthread_detach) is skipped. *)
 let n = nat_of_int
 let i = int_of_nat
+type item = Ev of (nat * ev) | Regs of int list | Skip
+let item_of_token ev_of_token tok =
+  match List.map int_of_string (String.split_on_char ':' tok) with
+  | _ :: 18 :: ids -> Regs ids
+  | _ :: 19 :: _ -> Skip
+  | _ -> Ev (ev_of_token tok)
 let ev_of_token tok =
   let f = Array.of_list (List.map int_of_string (String.split_on_char ':' tok)) in
   let g k = if k < Array.length f then f.(k) else 0 in
@@ -23,10 +33,13 @@ let lst l = if l = [] then "-" else String.concat "," (List.map (fun x -> string
 let b2s b = if b then "1" else "0"
 
 (* generic replay: step, hidden, fixsig (fills the waiter released by a signal) *)
-let replay step hidden fixsig hook s0 evs =
+let replay step hidden fixsig regs hook s0 evs =
   let s = ref s0 and bad = ref (-1) and k = ref 0 in
   (try
-    List.iter (fun (t, e) ->
+    List.iter (function
+    | Skip -> incr k
+    | Regs ids -> if regs !s <> ids then (bad := !k; raise Exit); incr k
+    | Ev (t, e) ->
       if not hook then begin
         let go = ref true in
         while !go do
@@ -49,7 +62,7 @@ let view (acc, (enq, (don, (disc, (repl, (started, (pending, (uaf, (freed, (wdea
 let handle toks =
   let rec split acc = function "|" :: r -> (List.rev acc, r) | x :: r -> split (x :: acc) r | [] -> (List.rev acc, []) in
   let (hd, evt) = split [] toks in
-  let evs = List.map ev_of_token evt in
+  let evs = List.map (item_of_token ev_of_token) evt in
   let toka = Array.of_list evt in
   match hd with
   | [kind; p1; p2; p3; hook; variant] ->
@@ -58,15 +71,17 @@ let handle toks =
     let one v =
       if kind = "stw" then begin
         let c = stw_cfg (n p1) (p2 <> 0) (p3 <> 0) (v >= 1) in
-        let (s, bad, k) = replay (stw_step c) (stw_hidden c) (fun _ e -> e) hook stw_init evs in
+        let (s, bad, k) = replay (stw_step c) (stw_hidden c) (fun _ e -> e) (fun _ -> []) hook stw_init evs in
         (bad, k, view (stw_view s))
       end else begin
         let c = tp_cfg (n p1) (n p2) (n p3) (v >= 1) (v = 3) in
         let fixsig s e = match e with
           | ESignal (cv, _) -> (match tp_waitc s with w :: _ -> ESignal (cv, Some w) | [] -> ESignal (cv, None))
           | _ -> e in
-        let (s, bad, k) = replay (tp_step c) (tp_hidden c) fixsig hook (tp_init c) evs in
-        (bad, k, view (tp_view c s))
+        let ints l = List.map i l in
+        let (s, bad, k) = replay (tp_step c) (tp_hidden c) fixsig (fun s -> ints (tp_regs s)) hook (tp_init c) evs in
+        (bad, k, Printf.sprintf "%s regs=%s busy=%d workers=%s" (view (tp_view c s)) (lst (tp_regs s)) (i (tp_busy s))
+                   (lst (tp_workers s)))
       end in
     let show v (bad, k, vw) =
       if bad < 0 then Printf.sprintf "ok variant=%d n=%d %s" v k vw
